@@ -40,6 +40,8 @@ INVALID = [
     ["-o", "csv", "--select", ".=v", "--style", "pretty", "--headers"],
     ["-o", "csv", "--select", ".=v", "--null-keyword", "x", "--utf8-strings"],
     ["--set", "d=1", "--set", "e=2", "--set", "d=3"],
+    ["--set", "d=1", "--set", "d =3"],
+    ["--set", "@m =1", "--set", " @m=(len .)"],
     ["--sort-by", ".=DESC nulls-last"],
     ["--select", "(- 1 2 3)=x"],
     ["--group-by", "(("],
